@@ -141,14 +141,19 @@ def run_tlc(cfg, tla, workers=1, env=None, extra=(), timeout=1800, metadir=None,
     if env:
         e.update({k: str(v) for k, v in env.items()})
     cmd = [TLC_SH, str(workers), md, cfg, tla] + list(extra)
+    tmp = md + ".tmp"                      # TLC / SANY scratch (java.io.tmpdir), private to this run and removed with it
+    os.makedirs(tmp, exist_ok=True)
+    e["TLC_TMP"] = tmp
     t = time.time()
     try:
         r = subprocess.run(cmd, cwd=SPEC, env=e, stdout=subprocess.PIPE, stderr=subprocess.STDOUT, text=True,
                            timeout=timeout)
     except subprocess.TimeoutExpired:
         shutil.rmtree(md, ignore_errors=True)
+        shutil.rmtree(tmp, ignore_errors=True)
         raise ToolError(f"TLC timeout after {timeout}s: {cfg}")
     shutil.rmtree(md, ignore_errors=True)
+    shutil.rmtree(tmp, ignore_errors=True)
     res = TlcResult()
     res.wall = time.time() - t
     res.lines = r.stdout.splitlines()
